@@ -1,4 +1,5 @@
 import ZwVerif.Model.Dwarf
+import ZwVerif.Model.Atval
 import Driver.ZwDrv
 /-! Line protocol for the DWARF forest model.
     `F <tokens>` loads a forest:  U off version  D off tag hc nattr (name form ref|-)* nchild <children> …
@@ -14,10 +15,14 @@ partial def parseDie : List String → Option (Die × List String)
     let rec attrs (n : Nat) (ts : List String) (acc : List DAttr) : Option (List DAttr × List String) :=
       match n, ts with
       | 0, ts => some (acc.reverse, ts)
-      | n + 1, name :: form :: ref :: ts => do
+      | n + 1, name :: form :: ref :: num :: blk :: str :: ts => do
         let name ← name.toNat?
         let form ← form.toNat?
-        attrs n ts ({ name := name, form := form, ref := ref.toNat? } :: acc)
+        let blk : Option (List Nat) := if blk == "-" then none else if blk == "e" then some []
+          else some ((blk.splitOn ".").filterMap String.toNat?)
+        let str : Option (List Nat) := if str == "-" then none else if str == "e" then some []
+          else some ((unhex str).map (·.toNat))
+        attrs n ts ({ name := name, form := form, ref := ref.toNat?, num := num.toInt?, blk := blk, str := str } :: acc)
       | _, _ => none
     let (as, rest) ← attrs na rest []
     match rest with
@@ -85,5 +90,27 @@ def findAttrRecords (f : Forest) (names : List Nat) : List String :=
         match findAttr f 4000 c.die n with
         | some (o, a) => nl [o, a.form]
         | none => "[]") ++ "]"
+
+def showOut : ZwVerif.Atval.Out → String
+  | .cst d v => s!"c|{d}|{v}"
+  | .str => "s"
+  | .die o => s!"d|{o}"
+  | .loc => "loc"
+  | .ranges => "aset"
+  | .macinfo => "mac"
+  | .file => "file"
+  | .block bs => "b|" ++ ".".intercalate (bs.map toString)
+  | .sig8 => "sig8"
+  | .err m => s!"err|{m}"
+  | .libdw => "libdw"
+  | .abort => "abort"
+
+/-- one line per attribute of every raw entry: `<DIE offset> <index> <decoded>[!]` -/
+def valueRecords (f : Forest) : List String :=
+  (rawEntries f).flatMap fun d =>
+    let parent := rawParent f d
+    d.attrs.zipIdx.map fun (a, i) =>
+      let r := ZwVerif.Atval.atValue f d parent a
+      s!"{d.off} {i} {showOut r.out}{if r.diag then "!" else ""}"
 
 end Driver
